@@ -288,6 +288,15 @@ def check_case(rec, seed, variant=0, consistency=True):
         except Exception as e:
             bad.append((f'e/make_dataset/raises/{type(e).__name__}', f'make_dataset with noise raises {e!r}', case))
             return bad, unsup, nev, info
+        # clause d once more, on noise-free data of these calls (exact or non-exact signal)
+        m0 = [np.asarray(x.measurements) for x in d0]
+        if n_sim > 1 and float(np.abs(m0[0]).max()) > 0:
+            if rec['same'] and not all(np.array_equal(m0[0], m) for m in m0[1:]):
+                bad.append(('d/same-signal/not-reused', 'use_same_signal=True: noise-free datasets of different '
+                            'simulations differ', {**case, 'use_exact_signal': nk['use_exact_signal']}))
+            if not rec['same'] and any(np.array_equal(m0[i], m0[j]) for i in range(n_sim) for j in range(i)):
+                bad.append(('d/fresh-signal/reused', 'default (use_same_signal=False): two simulations have the '
+                            'identical signal', {**case, 'use_exact_signal': nk['use_exact_signal']}))
         for k in range(n_sim):
             a0, a1, av = (np.asarray(x[k].measurements) for x in (d0, d1, dv))
             n1 = a1 - a0
@@ -310,6 +319,30 @@ def check_case(rec, seed, variant=0, consistency=True):
                 bad.append(('c/descriptors', "descriptors['noise'] is not the requested variance",
                             {**case, 'got': repr(dv[k].descriptors.get('noise')), 'expected': v}))
                 break
+        # channel covariance of the noise term.  Which factor of the covariance is applied is not stated by the
+        # property (the code uses eps @ chol(S)); convention-free relations: an identity covariance changes
+        # nothing, 4 S doubles the noise term of S, and a non-identity S does change the noise term
+        if rec['ncov'] and not bad:
+            try:
+                S0 = nk['noise_cov_channel']
+                dI, _ = call(1, **{**nk, 'noise_cov_channel': np.eye(P)})
+                dN, _ = call(1, **{k_: v_ for k_, v_ in nk.items() if k_ != 'noise_cov_channel'})
+                d4, _ = call(1, **{**nk, 'noise_cov_channel': 4.0 * S0})
+                nev += 3
+                a0 = np.asarray(d0[0].measurements)
+                nS = np.asarray(d1[0].measurements) - a0
+                nI = np.asarray(dI[0].measurements) - a0
+                nN = np.asarray(dN[0].measurements) - a0
+                n4 = np.asarray(d4[0].measurements) - a0
+                tol = 1e-9 * max(1.0, float(np.abs(a0).max()))
+                if not np.allclose(nI, nN, rtol=1e-9, atol=tol):
+                    bad.append(('e/noise-cov/identity', 'an identity noise_cov_channel changes the noise term', case))
+                elif not np.allclose(n4, 2.0 * nS, rtol=1e-9, atol=tol):
+                    bad.append(('e/noise-cov/scaling', 'noise term for covariance 4 S is not twice the term for S', case))
+                elif P > 1 and np.allclose(nS, nN, rtol=1e-6, atol=1e-9):
+                    bad.append(('e/noise-cov/ignored', 'a non-identity noise_cov_channel leaves the noise term unchanged', case))
+            except Exception as e:
+                bad.append((f'e/make_dataset/raises/{type(e).__name__}', f'make_dataset with noise covariance raises {e!r}', case))
     return bad, unsup, nev, info
 
 
